@@ -255,6 +255,7 @@ func (ex *Exec) evalPredLit(lit *ast.FuncLit, args []*T, typs []types.Type) *T {
 	v := ex.eval(ret.Results[0])
 	ex.quiet--
 	ex.facts = ex.facts[:nf]
+	ex.factScopes = ex.factScopes[:nf]
 	ex.st = saved
 	return v.T
 }
@@ -491,6 +492,9 @@ func (ex *Exec) mapGetIn(st *State, m Val, mt *types.Map, k Val) (*T, *T) {
 	h := Select(Select(ex.get(st, has), m.T), kk)
 	h = And(Ne(m.T, I(0)), h)
 	v := Select(Select(ex.get(st, val), m.T), kk)
+	if st == ex.st {
+		ex.assume(ex.typeFact(mt.Elem(), v))
+	}
 	zero := ex.zeroValue(mt.Elem())
 	return Ite(h, v, zero), h
 }
